@@ -219,7 +219,15 @@ fn prop_exl(c: &ExlCase, ctx: &Ctx) -> PResult {
     lines.extend(c.entries.iter().map(|(n, id)| format!("{},{}", n, id)));
     for (pos, t) in &c.comments {
         let at = 1 + util::pick_idx(*pos, lines.len());
-        lines.insert(at.min(lines.len()), if pos % 2 == 0 { format!("#{},{}", t, pos) } else { format!("#{}", t) });
+        // comment rows of every shape: numeric tail, no comma at all, non-numeric text after a comma, several commas
+        let row = match pos % 4 {
+            0 => format!("#{},{}", t, pos),
+            1 => format!("#{}", t),
+            2 => format!("#{},id", t),
+            _ => format!("# {}, kept for reference, {}", t, t),
+        };
+        ctx.classf(format!("exl:comment-shape:{}", pos % 4));
+        lines.insert(at.min(lines.len()), row);
     }
     let text = lines.join(if c.crlf { "\r\n" } else { "\n" });
     let with_comments = match guard("EXL::from_existing", || EXL::from_existing(text.as_bytes()))? {
